@@ -397,9 +397,7 @@ def bracketed : List String :=
 /-- The storage calls the middleware does not record: it inherits `DelegatingStorage`'s pass-through.
 FLIP when the overrides are added (fixes/C26-record-all-storage-calls.patch): set this list to `[]`
 and delete `unrecorded_calls_witness` and `not_every_call_bracketed`. -/
-def knownUnrecorded : List String :=
-  ["GetBucketNotificationConfiguration", "PutBucketNotificationConfiguration", "TransitionObjectStorageClass",
-   "GetObjectTagging", "PutObjectTagging", "DeleteObjectTagging"]
+def knownUnrecorded : List String := []   -- repaired in /repo da7bacf (were: the notification-configuration, tagging and transition calls)
 
 /-- **every_call_bracketed (partial)**: every method of `storage.Storage`'s managers, except the six
 listed, is overridden by a START / inner call / COMPLETE(err) bracket. `decide` over the generated
@@ -407,14 +405,10 @@ table: removing an override, or its START or COMPLETE, breaks this theorem. -/
 theorem every_call_bracketed_partial :
     ∀ m ∈ Gen.AuditOverrides.storageMethods, m ∉ knownUnrecorded → m ∈ bracketed := by decide
 
-/-- **Negation witness**: the full statement is false for the current code… -/
-theorem not_every_call_bracketed :
-    ¬ (∀ m ∈ Gen.AuditOverrides.storageMethods, m ∈ Gen.AuditOverrides.auditOverrides) := by decide
-
-/-- …exactly these six storage calls are not recorded (each is replayed by the harness:
-known findings C26.unrecorded-call.<Method>). -/
-theorem unrecorded_calls_witness :
-    Gen.AuditOverrides.storageMethods.filter (fun m => !bracketed.contains m) = knownUnrecorded := by decide
+/-- **every_call_bracketed** (full, since /repo da7bacf): every method of `storage.Storage`'s
+managers is overridden by a START / inner call / COMPLETE(err) bracket. -/
+theorem every_call_bracketed :
+    ∀ m ∈ Gen.AuditOverrides.storageMethods, m ∈ bracketed := by decide
 
 /-- Every operation name the overrides log is distinct per method (a log entry identifies its call kind). -/
 theorem operations_distinct :
